@@ -23,7 +23,8 @@ MARKERS = [False, True, 0, 0.0, 0.5, 1, 2.5]
 grid = st.integers(0, 3).map(float)
 mag = st.floats(1e-100, 1e100, allow_nan=False, allow_infinity=False)
 wide = st.one_of(st.just(0.0), st.just(-0.0), mag, mag.map(lambda x: -x),
-                 st.floats(-1e3, 1e3, allow_nan=False, allow_infinity=False))
+                 st.floats(-1e3, 1e3, allow_nan=False, allow_infinity=False).map(
+                     lambda x: 0.0 if abs(x) < 1e-100 else x))   # no subnormal-range values: cost/epsilon would underflow
 
 
 def vec(m, flavour):
@@ -155,6 +156,8 @@ def separated(p, q):
     for x, y in zip(p, q):
         if x == y:
             continue
+        if 0 < abs(x) < 1e-100 or 0 < abs(y) < 1e-100:
+            return False      # outside the stated magnitude domain (underflow of cost/epsilon)
         if abs(x - y) < 1e-9 * max(abs(x), abs(y)):
             return False
     return True
